@@ -1,1 +1,691 @@
-fn main(){}
+//! C34: scalar values, arrays and casts are mutually consistent.
+//!
+//! Runs the REAL `ScalarValue` API (datafusion-common) and the row helpers of `datafusion_common::utils` on random
+//! values of every cheaply constructible type and prints one JSON object per line ("ok" = the direct oracle):
+//!   rt      scalar -> to_array_of_size(n) -> try_from_array(i) gives back the scalar (value, type, nullness), n in 0,1,3,17
+//!   iter    iter_to_array of mixed NULL / non-NULL scalars read back element by element
+//!   cmp     partial_cmp vs arrow's `lt` / `eq` kernels and vs `sort_to_indices` (ascending, NULLS FIRST), antisymmetry,
+//!           Equal <=> ==, for primitive / string / binary / temporal / decimal types (NaN, -0.0 included)
+//!   eqhash  a == b  =>  hash(a) == hash(b)  (b built by another route: array round trip, other time zone, clone, ...)
+//!   cast    cast_to(t) vs ColumnarValue::Array(..).cast_to(t) (the engine's array cast) and vs arrow::compute::cast
+//!   arith   add / add_checked / sub / sub_checked vs the arrow numeric kernels on 1-row arrays; new_zero / new_one /
+//!           new_negative_one identities; distance
+//!   display Display -> try_from_string round trip (ints, floats, bool, strings, Date32, Decimal128)
+//!   rows    compare_rows on typed rows; search: bisect / linear_search (left, right) on tables sorted by arrow's
+//!           lexsort under every combination of sort options vs a naive count; the sorted table is ordered under
+//!           compare_rows
+//! Records of the modelled families carry "m": {...} = the Coq case (Model/ScalarModel.v).
+use std::collections::hash_map::DefaultHasher;
+use std::hash::{Hash, Hasher};
+use std::panic::{catch_unwind, AssertUnwindSafe};
+use std::sync::Arc;
+
+use arrow::array::*;
+use arrow::compute::{lexsort_to_indices, sort_to_indices, take, SortColumn, SortOptions};
+use arrow::datatypes::*;
+use datafusion_common::utils::{bisect, compare_rows, get_row_at_idx, linear_search};
+use datafusion_common::ScalarValue;
+use datafusion_expr_common::columnar_value::ColumnarValue;
+use h_util::{arg, json_str, Rng};
+
+type F16 = <Float16Type as ArrowPrimitiveType>::Native;
+
+fn gi(r: &mut Rng, lo: i128, hi: i128) -> i128 {
+    // boundary-heavy integer in [lo, hi]
+    match r.below(10) {
+        0 => lo,
+        1 => hi,
+        2 => 0.clamp(lo, hi),
+        3 => (lo + 1).min(hi),
+        4 => (hi - 1).max(lo),
+        5 | 6 => (r.range(-3, 3) as i128).clamp(lo, hi),
+        _ => {
+            let span = (hi - lo) as u128 + 1;
+            let x = ((r.next() as u128) << 64 | r.next() as u128) % span.max(1);
+            lo + x as i128
+        }
+    }
+}
+const STRS: [&str; 8] = ["", "a", "b", "ab", "abc", "B", "\u{e9}t\u{e9}", "zz"];
+const F64S: [f64; 12] = [0.0, -0.0, 1.0, -1.0, 1.5, f64::NAN, f64::INFINITY, f64::NEG_INFINITY, f64::MIN_POSITIVE, 1e300, -2.25, 3.0];
+
+const KINDS: [&str; 44] = [
+    "null", "bool", "i8", "i16", "i32", "i64", "u8", "u16", "u32", "u64", "f16", "f32", "f64", "d32", "d64", "d128", "d256", "utf8", "lutf8", "utf8v", "bin", "lbin",
+    "binv", "fsb", "date32", "date64", "t32s", "t32ms", "t64us", "t64ns", "ts_s", "ts_ms", "ts_us", "ts_ns", "iym", "idt", "imdn", "dur_s", "dur_ns", "list", "llist",
+    "fsl", "struct", "dict",
+];
+/// families whose ordering the property statement covers
+fn ordered_family(k: &str) -> bool {
+    !matches!(k, "null" | "list" | "llist" | "fsl" | "struct" | "dict" | "iym" | "idt" | "imdn")
+}
+
+/// a random scalar of the given kind; `param` fixes type parameters (time zone, precision/scale) so that two calls give one type
+fn gen(r: &mut Rng, k: &str, nullp: u64, param: u64) -> ScalarValue {
+    let null = r.chance(nullp, 100);
+    macro_rules! o {
+        ($e:expr) => {
+            if null {
+                None
+            } else {
+                Some($e)
+            }
+        };
+    }
+    let tzp: Option<Arc<str>> = match param % 3 {
+        0 => None,
+        1 => Some(Arc::from("UTC")),
+        _ => Some(Arc::from("+05:30")),
+    };
+    match k {
+        "null" => ScalarValue::Null,
+        "bool" => ScalarValue::Boolean(o!(r.chance(1, 2))),
+        "i8" => ScalarValue::Int8(o!(gi(r, i8::MIN as i128, i8::MAX as i128) as i8)),
+        "i16" => ScalarValue::Int16(o!(gi(r, i16::MIN as i128, i16::MAX as i128) as i16)),
+        "i32" => ScalarValue::Int32(o!(gi(r, i32::MIN as i128, i32::MAX as i128) as i32)),
+        "i64" => ScalarValue::Int64(o!(gi(r, i64::MIN as i128, i64::MAX as i128) as i64)),
+        "u8" => ScalarValue::UInt8(o!(gi(r, 0, u8::MAX as i128) as u8)),
+        "u16" => ScalarValue::UInt16(o!(gi(r, 0, u16::MAX as i128) as u16)),
+        "u32" => ScalarValue::UInt32(o!(gi(r, 0, u32::MAX as i128) as u32)),
+        "u64" => ScalarValue::UInt64(o!(gi(r, 0, u64::MAX as i128) as u64)),
+        "f16" => ScalarValue::Float16(o!(F16::from_f64(*r.pick(&F64S)))),
+        "f32" => ScalarValue::Float32(o!(*r.pick(&F64S) as f32)),
+        "f64" => ScalarValue::Float64(o!(if r.chance(1, 4) { r.range(-1000, 1000) as f64 / 8.0 } else { *r.pick(&F64S) })),
+        "d32" => ScalarValue::Decimal32(o!(gi(r, -99999, 99999) as i32), 5 + (param % 3) as u8, (param % 4) as i8),
+        "d64" => ScalarValue::Decimal64(o!(gi(r, -999_999_999_999, 999_999_999_999) as i64), 12 + (param % 3) as u8, (param % 5) as i8),
+        "d128" => ScalarValue::Decimal128(o!(gi(r, -(10i128.pow(20) - 1), 10i128.pow(20) - 1)), 20 + (param % 5) as u8, (param % 6) as i8),
+        "d256" => ScalarValue::Decimal256(o!(i256::from_i128(gi(r, -(10i128.pow(30) - 1), 10i128.pow(30) - 1))), 40 + (param % 5) as u8, (param % 6) as i8),
+        "utf8" => ScalarValue::Utf8(o!(r.pick(&STRS).to_string())),
+        "lutf8" => ScalarValue::LargeUtf8(o!(r.pick(&STRS).to_string())),
+        "utf8v" => ScalarValue::Utf8View(o!(if r.chance(1, 4) { "a string longer than twelve bytes".to_string() } else { r.pick(&STRS).to_string() })),
+        "bin" => ScalarValue::Binary(o!(r.pick(&STRS).as_bytes().to_vec())),
+        "lbin" => ScalarValue::LargeBinary(o!(r.pick(&STRS).as_bytes().to_vec())),
+        "binv" => ScalarValue::BinaryView(o!(r.pick(&STRS).as_bytes().to_vec())),
+        "fsb" => ScalarValue::FixedSizeBinary(3, o!(vec![r.below(3) as u8, r.below(256) as u8, r.below(2) as u8])),
+        "date32" => ScalarValue::Date32(o!(gi(r, -100_000, 100_000) as i32)),
+        "date64" => ScalarValue::Date64(o!(gi(r, -100_000, 100_000) as i64 * 86_400_000)),
+        "t32s" => ScalarValue::Time32Second(o!(gi(r, 0, 86_399) as i32)),
+        "t32ms" => ScalarValue::Time32Millisecond(o!(gi(r, 0, 86_399_999) as i32)),
+        "t64us" => ScalarValue::Time64Microsecond(o!(gi(r, 0, 86_399_999_999) as i64)),
+        "t64ns" => ScalarValue::Time64Nanosecond(o!(gi(r, 0, 86_399_999_999_999) as i64)),
+        "ts_s" => ScalarValue::TimestampSecond(o!(gi(r, -4_000_000_000, 4_000_000_000) as i64), tzp),
+        "ts_ms" => ScalarValue::TimestampMillisecond(o!(gi(r, -4_000_000_000_000, 4_000_000_000_000) as i64), tzp),
+        "ts_us" => ScalarValue::TimestampMicrosecond(o!(gi(r, -4_000_000_000_000_000, 4_000_000_000_000_000) as i64), tzp),
+        "ts_ns" => ScalarValue::TimestampNanosecond(o!(gi(r, i64::MIN as i128, i64::MAX as i128) as i64), tzp),
+        "iym" => ScalarValue::IntervalYearMonth(o!(gi(r, -1000, 1000) as i32)),
+        "idt" => ScalarValue::IntervalDayTime(o!(IntervalDayTime::new(gi(r, -100, 100) as i32, gi(r, -5000, 5000) as i32))),
+        "imdn" => ScalarValue::IntervalMonthDayNano(o!(IntervalMonthDayNano::new(gi(r, -20, 20) as i32, gi(r, -40, 40) as i32, gi(r, -1_000_000, 1_000_000) as i64))),
+        "dur_s" => ScalarValue::DurationSecond(o!(gi(r, -1_000_000, 1_000_000) as i64)),
+        "dur_ns" => ScalarValue::DurationNanosecond(o!(gi(r, i64::MIN as i128, i64::MAX as i128) as i64)),
+        "list" | "llist" | "fsl" => {
+            let n = if k == "fsl" { 2 } else { r.below(4) as usize };
+            let vals: Vec<ScalarValue> = (0..n).map(|_| gen(r, "i32", 25, 0)).collect();
+            let field = Arc::new(Field::new_list_field(DataType::Int32, true));
+            let dt = match k {
+                "list" => DataType::List(field),
+                "llist" => DataType::LargeList(field),
+                _ => DataType::FixedSizeList(field, 2),
+            };
+            if null {
+                ScalarValue::try_new_null(&dt).unwrap()
+            } else {
+                let l = ScalarValue::new_list(&vals, &DataType::Int32, true);
+                let s = ScalarValue::List(l);
+                if k == "list" {
+                    s
+                } else {
+                    s.cast_to(&dt).unwrap()
+                }
+            }
+        }
+        "struct" => {
+            let a = gen(r, "i32", 25, 0);
+            let b = gen(r, "utf8", 25, 0);
+            let fields = Fields::from(vec![Field::new("a", DataType::Int32, true), Field::new("b", DataType::Utf8, true)]);
+            let arr = StructArray::new(fields, vec![a.to_array().unwrap(), b.to_array().unwrap()], if null { Some(arrow::buffer::NullBuffer::new_null(1)) } else { None });
+            ScalarValue::Struct(Arc::new(arr))
+        }
+        "dict" => ScalarValue::Dictionary(Box::new(DataType::Int32), Box::new(gen(r, "utf8", nullp, 0))),
+        _ => unreachable!("{k}"),
+    }
+}
+
+// ------------------------------------------------------------------ model rendering (modelled families only)
+fn ity(s: &ScalarValue) -> Option<(&'static str, Option<i128>)> {
+    Some(match s {
+        ScalarValue::Int8(v) => ("I8", v.map(|x| x as i128)),
+        ScalarValue::Int16(v) => ("I16", v.map(|x| x as i128)),
+        ScalarValue::Int32(v) => ("I32", v.map(|x| x as i128)),
+        ScalarValue::Int64(v) => ("I64", v.map(|x| x as i128)),
+        ScalarValue::UInt8(v) => ("U8", v.map(|x| x as i128)),
+        ScalarValue::UInt16(v) => ("U16", v.map(|x| x as i128)),
+        ScalarValue::UInt32(v) => ("U32", v.map(|x| x as i128)),
+        ScalarValue::UInt64(v) => ("U64", v.map(|x| x as i128)),
+        _ => return None,
+    })
+}
+fn jopt<T: std::fmt::Display>(v: &Option<T>) -> String {
+    v.as_ref().map(|x| x.to_string()).unwrap_or("null".into())
+}
+fn jstr_opt(v: &Option<String>) -> String {
+    v.as_ref().map(|x| json_str(x)).unwrap_or("null".into())
+}
+/// JSON of a scalar of a modelled family
+fn msv(s: &ScalarValue) -> Option<String> {
+    if let Some((t, v)) = ity(s) {
+        return Some(format!("{{\"t\":\"int\",\"w\":\"{t}\",\"v\":{}}}", jopt(&v)));
+    }
+    Some(match s {
+        ScalarValue::Null => "{\"t\":\"null\"}".into(),
+        ScalarValue::Boolean(v) => format!("{{\"t\":\"bool\",\"v\":{}}}", jopt(v)),
+        ScalarValue::Utf8(v) => format!("{{\"t\":\"str\",\"k\":\"KUtf8\",\"v\":{}}}", jstr_opt(v)),
+        ScalarValue::LargeUtf8(v) => format!("{{\"t\":\"str\",\"k\":\"KLargeUtf8\",\"v\":{}}}", jstr_opt(v)),
+        ScalarValue::Utf8View(v) => format!("{{\"t\":\"str\",\"k\":\"KUtf8View\",\"v\":{}}}", jstr_opt(v)),
+        ScalarValue::TimestampSecond(v, z) => format!("{{\"t\":\"ts\",\"u\":\"USecond\",\"v\":{},\"tz\":{}}}", jopt(v), jstr_opt(&z.as_ref().map(|s| s.to_string()))),
+        ScalarValue::TimestampMillisecond(v, z) => format!("{{\"t\":\"ts\",\"u\":\"UMilli\",\"v\":{},\"tz\":{}}}", jopt(v), jstr_opt(&z.as_ref().map(|s| s.to_string()))),
+        ScalarValue::TimestampMicrosecond(v, z) => format!("{{\"t\":\"ts\",\"u\":\"UMicro\",\"v\":{},\"tz\":{}}}", jopt(v), jstr_opt(&z.as_ref().map(|s| s.to_string()))),
+        ScalarValue::TimestampNanosecond(v, z) => format!("{{\"t\":\"ts\",\"u\":\"UNano\",\"v\":{},\"tz\":{}}}", jopt(v), jstr_opt(&z.as_ref().map(|s| s.to_string()))),
+        ScalarValue::Decimal128(v, p, sc) => format!("{{\"t\":\"dec\",\"v\":{},\"p\":{p},\"s\":{sc}}}", jopt(v)),
+        _ => return None,
+    })
+}
+fn ord_code(o: Option<std::cmp::Ordering>) -> i32 {
+    match o {
+        None => 2,
+        Some(std::cmp::Ordering::Less) => -1,
+        Some(std::cmp::Ordering::Equal) => 0,
+        Some(std::cmp::Ordering::Greater) => 1,
+    }
+}
+fn hash_of(s: &ScalarValue) -> u64 {
+    let mut h = DefaultHasher::new();
+    s.hash(&mut h);
+    h.finish()
+}
+fn dbg(s: &ScalarValue) -> String {
+    json_str(&format!("{s:?}").chars().take(200).collect::<String>())
+}
+/// equality that also requires the same data type and nullness (== ignores e.g. the time zone)
+fn same(a: &ScalarValue, b: &ScalarValue) -> bool {
+    a == b && a.data_type() == b.data_type() && a.is_null() == b.is_null()
+}
+fn emit(k: &str, id: u64, ok: bool, why: &str, body: String) {
+    println!("{{\"id\":{id},\"k\":\"{k}\",\"ok\":{ok},\"why\":{}{}{body}}}", json_str(why), if body.is_empty() { "" } else { "," });
+}
+fn guard<F: FnOnce() -> (bool, String, String)>(k: &str, id: u64, f: F) {
+    match catch_unwind(AssertUnwindSafe(f)) {
+        Ok((ok, why, body)) => emit(k, id, ok, &why, body),
+        Err(p) => emit(k, id, false, &format!("PANIC: {}", p.downcast_ref::<String>().cloned().or(p.downcast_ref::<&str>().map(|s| s.to_string())).unwrap_or_default()), String::new()),
+    }
+}
+
+// ------------------------------------------------------------------ streams
+fn s_rt(r: &mut Rng, id: u64) {
+    let k = *r.pick(&KINDS);
+    let p = r.below(6);
+    let s = gen(r, k, 20, p);
+    guard("rt", id, || {
+        let mut why = String::new();
+        for n in [0usize, 1, 3, 17] {
+            match s.to_array_of_size(n) {
+                Err(e) => why = format!("to_array_of_size({n}) failed: {e}"),
+                Ok(a) => {
+                    if a.len() != n {
+                        why = format!("to_array_of_size({n}) has {} rows", a.len());
+                    }
+                    if *a.data_type() != s.data_type() {
+                        why = format!("array type {:?} but scalar type {:?}", a.data_type(), s.data_type());
+                    }
+                    for i in 0..n {
+                        match ScalarValue::try_from_array(&a, i) {
+                            Ok(b) => {
+                                if !same(&b, &s) {
+                                    why = format!("try_from_array(to_array_of_size({n}), {i}) = {b:?}");
+                                }
+                                if hash_of(&b) != hash_of(&s) {
+                                    why = format!("round-tripped scalar hashes differently (n={n}, i={i})");
+                                }
+                            }
+                            Err(e) => why = format!("try_from_array failed: {e}"),
+                        }
+                    }
+                }
+            }
+        }
+        (why.is_empty(), why, format!("\"kind\":\"{k}\",\"scalar\":{}", dbg(&s)))
+    });
+}
+
+fn s_iter(r: &mut Rng, id: u64) {
+    let k = *r.pick(&KINDS);
+    let p = r.below(6);
+    let n = r.range(1, 9) as usize;
+    let nullp = *r.pick(&[0u64, 30, 100]);
+    let xs: Vec<ScalarValue> = (0..n).map(|_| gen(r, k, nullp, p)).collect();
+    guard("iter", id, || {
+        let mut why = String::new();
+        match ScalarValue::iter_to_array(xs.iter().cloned()) {
+            Err(e) => why = format!("iter_to_array failed: {e}"),
+            Ok(a) => {
+                if a.len() != n {
+                    why = format!("iter_to_array of {n} scalars has {} rows", a.len());
+                } else {
+                    for (i, x) in xs.iter().enumerate() {
+                        match ScalarValue::try_from_array(&a, i) {
+                            Ok(b) => {
+                                if !same(&b, x) {
+                                    why = format!("element {i}: {x:?} read back as {b:?}");
+                                }
+                            }
+                            Err(e) => why = format!("try_from_array failed: {e}"),
+                        }
+                    }
+                }
+            }
+        }
+        (why.is_empty(), why, format!("\"kind\":\"{k}\",\"scalars\":{}", json_str(&format!("{xs:?}").chars().take(300).collect::<String>())))
+    });
+}
+
+fn s_cmp(r: &mut Rng, id: u64) {
+    let fam: Vec<&str> = KINDS.iter().copied().filter(|k| ordered_family(k)).collect();
+    let k = *r.pick(&fam);
+    let p = r.below(6);
+    let n = r.range(2, 7) as usize;
+    let xs: Vec<ScalarValue> = (0..n).map(|_| gen(r, k, 20, p)).collect();
+    // one cross-type / cross-parameter partner for the model tie
+    let other = if r.chance(1, 3) { gen(r, *r.pick(&["i8", "i16", "u64", "utf8", "lutf8", "ts_s", "ts_ns", "d128", "bool", "null"]), 20, r.below(6)) } else { gen(r, k, 20, p) };
+    guard("cmp", id, || {
+        let mut why = String::new();
+        let mut models = Vec::new();
+        for a in &xs {
+            for b in xs.iter().chain(std::iter::once(&other)) {
+                let c = a.partial_cmp(b);
+                if let (Some(ma), Some(mb)) = (msv(a), msv(b)) {
+                    models.push(format!("{{\"c\":\"cmp\",\"a\":{ma},\"b\":{mb},\"obs\":{}}}", ord_code(c)));
+                }
+                if a.data_type() != b.data_type() {
+                    continue;
+                }
+                let rc = b.partial_cmp(a);
+                if c.map(|x| x.reverse()) != rc {
+                    why = format!("partial_cmp not antisymmetric on {a:?}, {b:?}: {c:?} / {rc:?}");
+                }
+                if c.is_none() {
+                    why = format!("partial_cmp undefined within one type: {a:?}, {b:?}");
+                }
+                if (c == Some(std::cmp::Ordering::Equal)) != (a == b) {
+                    why = format!("partial_cmp {c:?} but == is {} on {a:?}, {b:?}", a == b);
+                }
+                if a.is_null() && !b.is_null() && c != Some(std::cmp::Ordering::Less) {
+                    why = format!("NULL is not the smallest: {a:?} vs {b:?} = {c:?}");
+                }
+                if !a.is_null() && !b.is_null() && !matches!(k, "dict") {
+                    let (sa, sb) = (a.to_scalar().unwrap(), b.to_scalar().unwrap());
+                    match (arrow::compute::kernels::cmp::lt(&sa, &sb), arrow::compute::kernels::cmp::eq(&sa, &sb)) {
+                        (Ok(l), Ok(e)) => {
+                            let (l, e) = (l.value(0), e.value(0));
+                            if l != (c == Some(std::cmp::Ordering::Less)) || e != (c == Some(std::cmp::Ordering::Equal)) {
+                                why = format!("partial_cmp({a:?},{b:?}) = {c:?} but arrow lt = {l}, eq = {e}");
+                            }
+                        }
+                        (x, _) => why = format!("arrow cmp kernel failed: {:?}", x.err()),
+                    }
+                }
+            }
+        }
+        // the engine's ascending NULLS FIRST sort is non-decreasing under partial_cmp
+        match ScalarValue::iter_to_array(xs.iter().cloned()) {
+            Ok(arr) => match sort_to_indices(&arr, Some(SortOptions { descending: false, nulls_first: true }), None) {
+                Ok(idx) => {
+                    let order: Vec<usize> = idx.values().iter().map(|x| *x as usize).collect();
+                    for w in order.windows(2) {
+                        if xs[w[0]].partial_cmp(&xs[w[1]]) == Some(std::cmp::Ordering::Greater) || xs[w[0]].partial_cmp(&xs[w[1]]).is_none() {
+                            why = format!("arrow sort puts {:?} before {:?} but partial_cmp says {:?}", xs[w[0]], xs[w[1]], xs[w[0]].partial_cmp(&xs[w[1]]));
+                        }
+                    }
+                }
+                Err(e) => why = format!("sort_to_indices failed: {e}"),
+            },
+            Err(e) => why = format!("iter_to_array failed: {e}"),
+        }
+        (why.is_empty(), why, format!("\"kind\":\"{k}\",\"scalars\":{},\"m\":[{}]", json_str(&format!("{xs:?}").chars().take(300).collect::<String>()), models.join(",")))
+    });
+}
+
+fn s_eqhash(r: &mut Rng, id: u64) {
+    let k = *r.pick(&KINDS);
+    let p = r.below(6);
+    let a = gen(r, k, 20, p);
+    let route = r.below(5);
+    let b = match route {
+        0 => a.clone(),
+        1 => ScalarValue::try_from_array(&a.to_array_of_size(3).unwrap(), 2).unwrap(),
+        2 => gen(r, k, 20, p + 1), // same kind, other time zone / precision
+        3 => gen(r, k, 20, p),
+        _ => {
+            // through a sliced array
+            let arr = ScalarValue::iter_to_array(vec![gen(r, k, 20, p), a.clone(), gen(r, k, 20, p)]).unwrap();
+            ScalarValue::try_from_array(&arr.slice(1, 1), 0).unwrap()
+        }
+    };
+    guard("eqhash", id, || {
+        let (e, h) = (a == b, hash_of(&a) == hash_of(&b));
+        let why = if e && !h { format!("{a:?} == {b:?} but their hashes differ") } else if (a == b) != (b == a) { "== is not symmetric".to_string() } else { String::new() };
+        let m = match (msv(&a), msv(&b)) {
+            (Some(ma), Some(mb)) => format!(",\"m\":[{{\"c\":\"eq\",\"a\":{ma},\"b\":{mb},\"eq\":{e},\"heq\":{h}}},{{\"c\":\"null\",\"a\":{ma},\"obs\":{}}}]", a.is_null()),
+            _ => String::new(),
+        };
+        (why.is_empty(), why, format!("\"kind\":\"{k}\",\"route\":{route},\"a\":{},\"b\":{}{m}", dbg(&a), dbg(&b)))
+    });
+}
+
+fn cast_targets() -> Vec<DataType> {
+    vec![
+        DataType::Int8,
+        DataType::Int16,
+        DataType::Int32,
+        DataType::Int64,
+        DataType::UInt8,
+        DataType::UInt16,
+        DataType::UInt32,
+        DataType::UInt64,
+        DataType::Float32,
+        DataType::Float64,
+        DataType::Boolean,
+        DataType::Utf8,
+        DataType::LargeUtf8,
+        DataType::Utf8View,
+        DataType::Decimal128(10, 2),
+        DataType::Decimal128(38, 0),
+        DataType::Decimal256(50, 3),
+        DataType::Date32,
+        DataType::Date64,
+        DataType::Timestamp(TimeUnit::Second, None),
+        DataType::Timestamp(TimeUnit::Nanosecond, None),
+        DataType::Timestamp(TimeUnit::Millisecond, Some(Arc::from("UTC"))),
+        DataType::Binary,
+        DataType::Dictionary(Box::new(DataType::Int32), Box::new(DataType::Utf8)),
+    ]
+}
+fn ity_name(dt: &DataType) -> Option<&'static str> {
+    Some(match dt {
+        DataType::Int8 => "I8",
+        DataType::Int16 => "I16",
+        DataType::Int32 => "I32",
+        DataType::Int64 => "I64",
+        DataType::UInt8 => "U8",
+        DataType::UInt16 => "U16",
+        DataType::UInt32 => "U32",
+        DataType::UInt64 => "U64",
+        _ => return None,
+    })
+}
+
+fn s_cast(r: &mut Rng, id: u64) {
+    let k = *r.pick(&["bool", "i8", "i16", "i32", "i64", "u8", "u16", "u32", "u64", "f32", "f64", "d128", "d32", "utf8", "lutf8", "utf8v", "date32", "date64", "ts_s", "ts_ms", "ts_ns", "bin", "i64", "u64", "i32"]);
+    let p = r.below(6);
+    let s = if k == "utf8" && r.chance(1, 2) { ScalarValue::Utf8(Some(r.pick(&["1", "-7", "300", "1.5", "abc", "", "2020-01-02", "true", " 12", "1e3", "99999999999999999999"]).to_string())) } else { gen(r, k, 15, p) };
+    let ts = cast_targets();
+    let t = r.pick(&ts).clone();
+    guard("cast", id, || {
+        let r1 = s.cast_to(&t);
+        let arr = s.to_array_of_size(3).unwrap();
+        let r2 = ColumnarValue::Array(arr.clone()).cast_to(&t, None).and_then(|c| match c {
+            ColumnarValue::Array(a) => ScalarValue::try_from_array(&a, 1),
+            ColumnarValue::Scalar(x) => Ok(x),
+        });
+        let r3 = arrow::compute::cast_with_options(&arr, &t, &datafusion_common::format::DEFAULT_CAST_OPTIONS).map_err(|e| e.to_string()).and_then(|a| ScalarValue::try_from_array(&a, 1).map_err(|e| e.to_string()));
+        let mut why = String::new();
+        match (&r1, &r2) {
+            (Ok(a), Ok(b)) => {
+                if !same(a, b) {
+                    why = format!("scalar cast gives {a:?}, array cast gives {b:?}");
+                }
+            }
+            (Err(_), Err(_)) => {}
+            (Ok(a), Err(e)) => why = format!("scalar cast gives {a:?}, array cast fails: {}", e.to_string().chars().take(120).collect::<String>()),
+            (Err(e), Ok(b)) => why = format!("scalar cast fails ({}), array cast gives {b:?}", e.to_string().chars().take(120).collect::<String>()),
+        }
+        let arrow_same = match (&r1, &r3) {
+            (Ok(a), Ok(b)) => same(a, b),
+            (Err(_), Err(_)) => true,
+            _ => false,
+        };
+        let m = match (ity(&s), ity_name(&t)) {
+            (Some((w, v)), Some(to)) => {
+                let obs = match &r1 {
+                    Ok(x) => format!("{{\"v\":{}}}", jopt(&ity(x).unwrap().1)),
+                    Err(_) => "null".into(),
+                };
+                format!(",\"m\":[{{\"c\":\"cast\",\"w\":\"{w}\",\"v\":{},\"to\":\"{to}\",\"obs\":{obs}}}]", jopt(&v))
+            }
+            _ => String::new(),
+        };
+        (why.is_empty(), why, format!("\"from\":{},\"to\":{},\"scalar\":{},\"res\":{},\"arrow_same\":{arrow_same}{m}", json_str(&format!("{:?}", s.data_type())), json_str(&format!("{t:?}")), dbg(&s), json_str(&format!("{:?}", r1.as_ref().map_err(|e| e.to_string().chars().take(80).collect::<String>())).chars().take(200).collect::<String>())))
+    });
+}
+
+fn s_arith(r: &mut Rng, id: u64) {
+    let k = *r.pick(&["i8", "i16", "i32", "i64", "u8", "u16", "u32", "u64", "f32", "f64", "d32", "d64", "d128", "d256", "i8", "u8", "i64", "u64"]);
+    let (p, q) = (r.below(6), r.below(6));
+    let a = gen(r, k, 12, p);
+    let same_param = !k.starts_with('d') || r.chance(1, 2);
+    let b = gen(r, k, 12, if same_param { p } else { q });
+    guard("arith", id, || {
+        use arrow::compute::kernels::numeric;
+        let mut why = String::new();
+        let (sa, sb) = (a.to_scalar().unwrap(), b.to_scalar().unwrap());
+        let via = |x: Result<ArrayRef, arrow::error::ArrowError>| x.map_err(|e| e.to_string()).and_then(|arr| ScalarValue::try_from_array(&arr, 0).map_err(|e| e.to_string()));
+        let pairs: Vec<(&str, Result<ScalarValue, String>, Result<ScalarValue, String>)> = vec![
+            ("add_checked", a.add_checked(&b).map_err(|e| e.to_string()), via(numeric::add(&sa, &sb))),
+            ("add", a.add(&b).map_err(|e| e.to_string()), via(numeric::add_wrapping(&sa, &sb))),
+            ("sub_checked", a.sub_checked(&b).map_err(|e| e.to_string()), via(numeric::sub(&sa, &sb))),
+            ("sub", a.sub(&b).map_err(|e| e.to_string()), via(numeric::sub_wrapping(&sa, &sb))),
+            ("mul_checked", a.mul_checked(&b).map_err(|e| e.to_string()), via(numeric::mul(&sa, &sb))),
+        ];
+        for (name, x, y) in &pairs {
+            match (x, y) {
+                (Ok(u), Ok(v)) => {
+                    if !same(u, v) {
+                        why = format!("{name}: scalar {u:?}, arrow kernel {v:?}");
+                    }
+                }
+                (Err(_), Err(_)) => {}
+                (u, v) => why = format!("{name}: scalar {:?}, arrow kernel {:?}", u.as_ref().map_err(|e| e.chars().take(80).collect::<String>()), v.as_ref().map_err(|e| e.chars().take(80).collect::<String>())),
+            }
+        }
+        // identities
+        let dt = a.data_type();
+        if !a.is_null() {
+            if let (Ok(z), Ok(one), neg) = (ScalarValue::new_zero(&dt), ScalarValue::new_one(&dt), ScalarValue::new_negative_one(&dt)) {
+                let nan = matches!(&a, ScalarValue::Float32(Some(f)) if f.is_nan()) || matches!(&a, ScalarValue::Float64(Some(f)) if f.is_nan());
+                match a.add_checked(&z) {
+                    Ok(x) => {
+                        // -0.0 + 0.0 = 0.0: compare by partial_cmp Equal-or-bits for floats
+                        let same_val = x == a || matches!((&x, &a), (ScalarValue::Float64(Some(u)), ScalarValue::Float64(Some(v))) if u == v) || matches!((&x, &a), (ScalarValue::Float32(Some(u)), ScalarValue::Float32(Some(v))) if u == v);
+                        if !same_val && !nan {
+                            why = format!("x + new_zero = {x:?} for x = {a:?}");
+                        }
+                    }
+                    Err(e) => why = format!("x + new_zero failed: {e}"),
+                }
+                if one.sub_checked(&one).ok().as_ref() != Some(&z) {
+                    why = format!("new_one - new_one <> new_zero for {dt:?}");
+                }
+                if let Ok(n) = neg {
+                    if one.add_checked(&n).ok().as_ref() != Some(&z) {
+                        why = format!("new_one + new_negative_one <> new_zero for {dt:?}");
+                    }
+                }
+            }
+        }
+        // distance
+        let d = a.distance(&b);
+        let d2 = b.distance(&a);
+        if d != d2 {
+            why = format!("distance not symmetric: {d:?} / {d2:?}");
+        }
+        if same(&a, &b) && !a.is_null() && d != Some(0) && !matches!(&a, ScalarValue::Float32(Some(f)) if !f.is_finite()) && !matches!(&a, ScalarValue::Float64(Some(f)) if !f.is_finite()) {
+            why = format!("distance(x, x) = {d:?} for {a:?}");
+        }
+        let m = match (ity(&a), ity(&b)) {
+            (Some((w, x)), Some((_, y))) => {
+                let chk = match &pairs[0].1 {
+                    Ok(s) => format!("{{\"v\":{}}}", jopt(&ity(s).unwrap().1)),
+                    Err(_) => "null".into(),
+                };
+                let wr = pairs[1].1.as_ref().ok().and_then(|s| ity(s).unwrap().1);
+                let dist = a.distance_u64(&b);
+                format!(",\"m\":[{{\"c\":\"add\",\"w\":\"{w}\",\"a\":{},\"b\":{},\"chk\":{chk},\"wrap\":{}}},{{\"c\":\"dist\",\"a\":{},\"b\":{},\"obs\":{}}}]", jopt(&x), jopt(&y), jopt(&wr), jopt(&x), jopt(&y), jopt(&dist))
+            }
+            _ => String::new(),
+        };
+        (why.is_empty(), why, format!("\"kind\":\"{k}\",\"a\":{},\"b\":{}{m}", dbg(&a), dbg(&b)))
+    });
+}
+
+fn s_display(r: &mut Rng, id: u64) {
+    let k = *r.pick(&["bool", "i8", "i16", "i32", "i64", "u8", "u16", "u32", "u64", "f32", "f64", "utf8", "lutf8", "utf8v", "date32", "d128"]);
+    let s = gen(r, k, 0, r.below(6));
+    guard("display", id, || {
+        let text = s.to_string();
+        let back = ScalarValue::try_from_string(text.clone(), &s.data_type());
+        let nan = matches!(&s, ScalarValue::Float32(Some(f)) if f.is_nan()) || matches!(&s, ScalarValue::Float64(Some(f)) if f.is_nan());
+        let why = match &back {
+            Ok(b) if same(b, &s) => String::new(),
+            Ok(b) if nan && format!("{b}") == text => String::new(),
+            Ok(b) => format!("{s:?} displays as {text:?} which parses back to {b:?}"),
+            Err(e) => format!("{s:?} displays as {text:?} which does not parse back: {}", e.to_string().chars().take(120).collect::<String>()),
+        };
+        (why.is_empty(), why, format!("\"kind\":\"{k}\",\"scalar\":{},\"text\":{}", dbg(&s), json_str(&text)))
+    });
+}
+
+fn s_search(r: &mut Rng, id: u64) {
+    let ncols = r.range(1, 3) as usize;
+    let kinds: Vec<&str> = (0..ncols).map(|_| *r.pick(&["i32", "i8", "u64", "utf8", "bool", "i64", "ts_s", "d128", "f64", "date32"])).collect();
+    let params: Vec<u64> = (0..ncols).map(|_| r.below(6)).collect();
+    let sos: Vec<SortOptions> = (0..ncols).map(|_| SortOptions { descending: r.chance(1, 2), nulls_first: r.chance(1, 2) }).collect();
+    let n = *r.pick(&[0usize, 1, 2, 3, 5, 8, 13, 21, 40]);
+    // small domains so that duplicates and ties on the first column occur
+    let small = |r: &mut Rng, k: &str, p: u64| -> ScalarValue {
+        if r.chance(1, 5) {
+            return gen(r, k, 100, p);
+        }
+        match k {
+            "i32" => ScalarValue::Int32(Some(r.range(-2, 3) as i32)),
+            "i8" => ScalarValue::Int8(Some(*r.pick(&[-128i8, -1, 0, 1, 127]))),
+            "u64" => ScalarValue::UInt64(Some(*r.pick(&[0u64, 1, 2, u64::MAX, 1 << 63, (1 << 63) - 1]))),
+            "i64" => ScalarValue::Int64(Some(*r.pick(&[i64::MIN, -1, 0, 1, i64::MAX]))),
+            "utf8" => ScalarValue::Utf8(Some(r.pick(&["", "a", "ab", "b", "B"]).to_string())),
+            "f64" => ScalarValue::Float64(Some(*r.pick(&[-1.0, -0.0, 0.0, 1.0, f64::NAN, f64::INFINITY]))),
+            _ => gen(r, k, 0, p),
+        }
+    };
+    let cols: Vec<Vec<ScalarValue>> = (0..ncols).map(|c| (0..n).map(|_| small(r, kinds[c], params[c])).collect()).collect();
+    let ntargets = 4;
+    let targets: Vec<Vec<ScalarValue>> = (0..ntargets).map(|_| if n > 0 && r.chance(1, 2) { let i = r.below(n as u64) as usize; (0..ncols).map(|c| cols[c][i].clone()).collect() } else { (0..ncols).map(|c| small(r, kinds[c], params[c])).collect() }).collect();
+    guard("search", id, || {
+        let mut why = String::new();
+        let mut models = Vec::new();
+        // typed empty arrays for n = 0
+        let arrays: Vec<ArrayRef> = (0..ncols).map(|c| if n == 0 { new_empty_array(&small(&mut Rng::new(1), kinds[c], params[c]).data_type()) } else { ScalarValue::iter_to_array(cols[c].iter().cloned()).unwrap() }).collect();
+        let sorted: Vec<ArrayRef> = if n == 0 {
+            arrays.clone()
+        } else {
+            let sc: Vec<SortColumn> = arrays.iter().zip(&sos).map(|(a, o)| SortColumn { values: a.clone(), options: Some(*o) }).collect();
+            let idx = lexsort_to_indices(&sc, None).unwrap();
+            arrays.iter().map(|a| take(a.as_ref(), &idx, None).unwrap()).collect()
+        };
+        let rows: Vec<Vec<ScalarValue>> = (0..n).map(|i| get_row_at_idx(&sorted, i).unwrap()).collect();
+        // the engine's sort is ordered under compare_rows
+        for w in rows.windows(2) {
+            match compare_rows(&w[0], &w[1], &sos) {
+                Ok(std::cmp::Ordering::Greater) => why = format!("lexsort puts {:?} before {:?} but compare_rows says Greater", w[0], w[1]),
+                Err(e) => why = format!("compare_rows failed: {e}"),
+                _ => {}
+            }
+        }
+        let modelled = rows.iter().chain(targets.iter()).all(|row| row.iter().all(|v| msv(v).is_some()));
+        let jrow = |row: &Vec<ScalarValue>| format!("[{}]", row.iter().map(|v| msv(v).unwrap()).collect::<Vec<_>>().join(","));
+        let jsos = format!("[{}]", sos.iter().map(|o| format!("[{},{}]", o.descending, o.nulls_first)).collect::<Vec<_>>().join(","));
+        for t in &targets {
+            let naive_l = rows.iter().filter(|x| compare_rows(x, t, &sos).map(|c| c.is_lt()).unwrap_or(false)).count();
+            let naive_r = rows.iter().filter(|x| compare_rows(x, t, &sos).map(|c| c.is_le()).unwrap_or(false)).count();
+            let code = |x: datafusion_common::Result<usize>| x.map(|v| v as i64).unwrap_or(-1);
+            let (bl, br, ll, lr) = (code(bisect::<true>(&sorted, t, &sos)), code(bisect::<false>(&sorted, t, &sos)), code(linear_search::<true>(&sorted, t, &sos)), code(linear_search::<false>(&sorted, t, &sos)));
+            if bl != naive_l as i64 || ll != naive_l as i64 || br != naive_r as i64 || lr != naive_r as i64 {
+                why = format!("target {t:?}: bisect left/right = {bl}/{br}, linear left/right = {ll}/{lr}, rows before / not after = {naive_l}/{naive_r}");
+            }
+            if modelled {
+                models.push(format!("{{\"c\":\"search\",\"rows\":[{}],\"target\":{},\"sos\":{jsos},\"obs\":[{bl},{br},{ll},{lr}]}}", rows.iter().map(jrow).collect::<Vec<_>>().join(","), jrow(t)));
+                if let Some(first) = rows.first() {
+                    let c = compare_rows(first, t, &sos).ok();
+                    models.push(format!("{{\"c\":\"rows\",\"x\":{},\"y\":{},\"sos\":{jsos},\"obs\":{}}}", jrow(first), jrow(t), ord_code(c)));
+                }
+            }
+        }
+        (why.is_empty(), why, format!("\"kinds\":{},\"n\":{n},\"sos\":{jsos},\"m\":[{}]", json_str(&format!("{kinds:?}")), models.join(",")))
+    });
+}
+
+/// fixed witnesses (run first on every seed)
+fn fixed(id: &mut u64) {
+    // unsigned ordering above i64::MAX, NULL ordering, cross-type, decimal / time zone equality
+    let cases: Vec<(ScalarValue, ScalarValue)> = vec![
+        (ScalarValue::UInt64(Some(u64::MAX)), ScalarValue::UInt64(Some(1))),
+        (ScalarValue::UInt64(Some(1 << 63)), ScalarValue::UInt64(Some((1 << 63) - 1))),
+        (ScalarValue::Int8(None), ScalarValue::Int8(Some(-128))),
+        (ScalarValue::Int8(Some(1)), ScalarValue::Int16(Some(1))),
+        (ScalarValue::Null, ScalarValue::Int8(None)),
+        (ScalarValue::Decimal128(Some(1), 10, 2), ScalarValue::Decimal128(Some(1), 12, 2)),
+        (ScalarValue::Decimal128(Some(1), 10, 2), ScalarValue::Decimal128(Some(1), 10, 3)),
+        (ScalarValue::TimestampNanosecond(Some(5), None), ScalarValue::TimestampNanosecond(Some(5), Some(Arc::from("UTC")))),
+        (ScalarValue::Utf8(Some("a".into())), ScalarValue::LargeUtf8(Some("a".into()))),
+        (ScalarValue::Utf8(Some("a".into())), ScalarValue::Utf8(Some("ab".into()))),
+    ];
+    for (a, b) in cases {
+        let (ma, mb) = (msv(&a).unwrap(), msv(&b).unwrap());
+        let (e, h) = (a == b, hash_of(&a) == hash_of(&b));
+        let ok = !(e && !h);
+        emit("fixed", *id, ok, if ok { "" } else { "== but hashes differ" }, format!("\"a\":{},\"b\":{},\"m\":[{{\"c\":\"cmp\",\"a\":{ma},\"b\":{mb},\"obs\":{}}},{{\"c\":\"cmp\",\"a\":{mb},\"b\":{ma},\"obs\":{}}},{{\"c\":\"eq\",\"a\":{ma},\"b\":{mb},\"eq\":{e},\"heq\":{h}}}]", dbg(&a), dbg(&b), ord_code(a.partial_cmp(&b)), ord_code(b.partial_cmp(&a))));
+        *id += 1;
+    }
+    // descending bisect on a fixed table (the witness of the off-by-one class)
+    let col: ArrayRef = Arc::new(Int32Array::from(vec![Some(9), Some(7), Some(7), Some(3), None]));
+    let sos = [SortOptions { descending: true, nulls_first: false }];
+    for t in [9, 8, 7, 3, 2] {
+        let target = vec![ScalarValue::Int32(Some(t))];
+        let (bl, br) = (bisect::<true>(&[col.clone()], &target, &sos).unwrap(), bisect::<false>(&[col.clone()], &target, &sos).unwrap());
+        let (ll, lr) = (linear_search::<true>(&[col.clone()], &target, &sos).unwrap(), linear_search::<false>(&[col.clone()], &target, &sos).unwrap());
+        let vals = [Some(9), Some(7), Some(7), Some(3), None];
+        let nl = vals.iter().filter(|v| v.map_or(false, |x| x > t)).count();
+        let nr = vals.iter().filter(|v| v.map_or(false, |x| x >= t)).count();
+        let ok = bl == nl && ll == nl && br == nr && lr == nr;
+        let rows = vals.iter().map(|v| format!("[{{\"t\":\"int\",\"w\":\"I32\",\"v\":{}}}]", jopt(v))).collect::<Vec<_>>().join(",");
+        emit("fixed", *id, ok, if ok { "" } else { "bisect / linear_search differ from the count" }, format!("\"target\":{t},\"m\":[{{\"c\":\"search\",\"rows\":[{rows}],\"target\":[{{\"t\":\"int\",\"w\":\"I32\",\"v\":{t}}}],\"sos\":[[true,false]],\"obs\":[{bl},{br},{ll},{lr}]}}]"));
+        *id += 1;
+    }
+}
+
+fn main() {
+    let args: Vec<String> = std::env::args().collect();
+    let seed: u64 = arg(&args, "--seed", "1").parse().unwrap();
+    let n: u64 = arg(&args, "--n", "400").parse().unwrap();
+    std::panic::set_hook(Box::new(|_| {}));
+    let mut fid = 1_000_000u64;
+    fixed(&mut fid);
+    let mut r = Rng::new(seed);
+    for id in 0..n {
+        match id % 10 {
+            0 => s_rt(&mut r, id),
+            1 => s_iter(&mut r, id),
+            2 | 3 => s_cmp(&mut r, id),
+            4 => s_eqhash(&mut r, id),
+            5 => s_cast(&mut r, id),
+            6 => s_arith(&mut r, id),
+            7 => s_display(&mut r, id),
+            _ => s_search(&mut r, id),
+        }
+    }
+}
